@@ -236,6 +236,19 @@ pub fn run(tier: Tier) -> RunOutcome {
         return out;
     }
 
+    // the user may edit public settings fields after construction; they are saved as they
+    // are, but the stored *data* must still be the user's problem (equilibration and
+    // presolve were applied once, by the constructor)
+    if chance("flip_equil_before_save", 1, 4) {
+        solver.settings.equilibrate_enable = !solver.settings.equilibrate_enable;
+        probe("c19_settings_edited_before_save");
+    }
+    if chance("flip_presolve_before_save", 1, 6) {
+        solver.settings.presolve_enable = !solver.settings.presolve_enable;
+        probe("c19_settings_edited_before_save");
+    }
+    let saved_settings = solver.settings.clone();
+
     // ------------------------------------------------------------ save
     let path = work_file("problem.json");
     call(1, "save", false, String::new());
@@ -318,7 +331,7 @@ pub fn run(tier: Tier) -> RunOutcome {
     // (2) load without settings: identical settings, same verdict and objective
     let reference_snap = {
         // what the original solver gives on a (re-)solve with the limits used below
-        let mut s0 = match sv_new(2, &prob, settings.clone()) {
+        let mut s0 = match sv_new(2, &prob, saved_settings.clone()) {
             Ok(s) => s,
             Err(_) => return out,
         };
@@ -331,7 +344,7 @@ pub fn run(tier: Tier) -> RunOutcome {
         let mut f = File::open(&path).expect("open");
         match load_file(&mut f, None) {
             LoadOutcome::Ok(s2) => {
-                let (a, b) = (format!("{:?}", s2.settings), format!("{:?}", settings));
+                let (a, b) = (format!("{:?}", s2.settings), format!("{:?}", saved_settings));
                 if a != b {
                     out.violations.push(Violation::new(
                         "C19.settings_differ",
@@ -339,6 +352,11 @@ pub fn run(tier: Tier) -> RunOutcome {
                     ));
                 }
                 match (exercise(s2), &reference_snap) {
+                    (Ok(_), Some(_)) if saved_settings.presolve_enable != settings.presolve_enable => {
+                        // presolve_enable was edited after construction: the loaded (already
+                        // reduced) problem and the reference are structurally different
+                        probe("c19_presolve_edited_solve_not_compared");
+                    }
                     (Ok(sn), Some(r)) => {
                         if !equil {
                             // exact data => exact solve (lengths may differ when rows were dropped)
@@ -581,7 +599,7 @@ pub fn run(tier: Tier) -> RunOutcome {
                 h.join().ok();
                 match r {
                     LoadOutcome::Ok(s) => {
-                        if format!("{:?}", s.settings) != format!("{:?}", settings) {
+                        if format!("{:?}", s.settings) != format!("{:?}", saved_settings) {
                             out.violations.push(Violation::new(
                                 "C19.short_reads_change_result",
                                 "problem loaded through a pipe differs".to_string(),
@@ -723,7 +741,7 @@ pub fn run(tier: Tier) -> RunOutcome {
                 // (b) a usable solver.  If the corruption changed a settings value the
                 // solver now runs under arbitrary settings (e.g. a line-search factor
                 // above one), which no property covers: construct only.
-                if format!("{:?}", s.settings) != format!("{:?}", settings) {
+                if format!("{:?}", s.settings) != format!("{:?}", saved_settings) {
                     with_sim(|s| s.probe("c19_corruption_hit_settings"));
                     continue;
                 }
